@@ -130,6 +130,7 @@ def run_scenario(scn):
         if serial:
             vt = vloop.install()
             vt.reset()
+            vt.max_iterations = 150_000  # scenarios need ~1e3 loop iterations; a live-locking tree must not cost 1e6 each
             clock = vt.now
             _state["durs"] = scn.get("durs") or [0]
             ev = Evaluator.create(_run_async, method="serial", method_kwargs={"num_workers": W})
